@@ -547,280 +547,6 @@ def overwritten_after_load(mod, rng, call, key, big):
 
 
 RACE_SCRIPT = r'''
-import os, sys, warnings
-warnings.simplefilter('ignore')
-import numpy as np
-d = sys.argv[1]
-import abel, abel.basex, abel.daun, abel.dasch, abel.linbasex, abel.rbasex
-IM = np.random.default_rng(1).random((2, 40)) + 0.1
-abel.basex.basex_transform(IM, basis_dir=d, verbose=False)
-abel.daun.daun_transform(IM, basis_dir=d, degree=1, verbose=False)
-abel.dasch.three_point_transform(IM, basis_dir=d)
-Q = np.random.default_rng(2).random((41, 41)) + 0.1
-abel.linbasex.linbasex_transform_full(Q, basis_dir=d)
-abel.rbasex.rbasex_transform(Q, basis_dir=d)
-'''
-
-
-def strace_guard(root, _second=False):
-    """How does each basis file of the library's own save paths come into being?
-    Returns {basis file: dict(inplace=[sizes of write syscalls on the .npy path itself],
-    renamed_from=temp name or None, temp_bytes=bytes written to that temp file, size=final size)}.
-    The atomic-save theorem needs: no in-place write, the file appears by rename
-    of a temporary file into which all of its bytes were written before."""
-    d = os.path.join(root, 'strace')
-    shutil.rmtree(d, ignore_errors=True)
-    os.makedirs(d)
-    log = os.path.join(root, 'strace.log')
-    if shutil.which('strace') is None:
-        return None, 'strace not available'
-    env = dict(os.environ, PYTHONPATH=vlib.REPO)
-    p = subprocess.run(['strace', '-f', '-y', '-e', 'trace=write,rename,renameat,renameat2', '-o', log, H.PY, '-W',
-                        'ignore', '-c', STRACE_SCRIPT, d], env=env, stdout=subprocess.PIPE, stderr=subprocess.PIPE,
-                       timeout=600)
-    if p.returncode != 0 or not os.path.exists(log):
-        return None, 'strace run failed: ' + p.stderr.decode()[-300:]
-    written = {}            # path -> list of write sizes (in order)
-    info = {}
-    for line in open(log, errors='replace'):
-        # -y annotates descriptors with their path (also after dup): write(5</dir/x>, ..., N) = N
-        m = re.match(r'\d+\s+write\(\d+<([^>]*)>, .*\)\s*=\s*(\d+)', line)
-        if m and m.group(1).startswith(d):
-            written.setdefault(os.path.basename(m.group(1)), []).append(int(m.group(2)))
-            continue
-        m = re.match(r'\d+\s+rename(?:at2?)?\((?:AT_FDCWD[^,]*, )?"([^"]*)", (?:AT_FDCWD[^,]*, )?"([^"]*\.npy)"[^"]*\)\s*=\s*0', line)
-        if m and m.group(2).startswith(d):
-            src, dst = os.path.basename(m.group(1)), os.path.basename(m.group(2))
-            info[dst] = dict(renamed_from=src, temp_bytes=sum(written.get(src, [])), temp_writes=len(written.get(src, [])))
-    for f in os.listdir(d):
-        if f.endswith('.npy'):
-            e = info.setdefault(f, dict(renamed_from=None, temp_bytes=0, temp_writes=0))
-            e['inplace'] = written.get(f, [])
-            e['size'] = os.path.getsize(os.path.join(d, f))
-    # the atomic-save theorem lets every writer fill a temporary file OF ITS OWN: a second
-    # process saving the same basis into the same directory must use another temporary name
-    if not _second:
-        shutil.rmtree(d, ignore_errors=True)
-        info2, err2 = strace_guard(root, _second=True)
-        for f, e in info.items():
-            e2 = (info2 or {}).get(f)
-            e['temp_name_private_to_writer'] = bool(e2 and e.get('renamed_from') and e2.get('renamed_from')
-                                                    and e2['renamed_from'] != e['renamed_from'])
-    return info, None
-
-
-def not_atomic(info):
-    """basis files that did not appear by rename of a completely written temp file
-    private to the writing process"""
-    return sorted(f for f, e in info.items()
-                  if e.get('inplace') or e['renamed_from'] is None or e['temp_bytes'] != e.get('size')
-                  or e.get('temp_name_private_to_writer') is False)
-
-
-def zero_gap_probe(env, worker, rng):
-    """Failing schedule of the refuted three-chunk theorem, as a file: header,
-    zero gap, rest of the payload.  Used when a save is seen to need > 2 writes."""
-    ad = H.ADAPTERS['daun'](env)
-    call = dict(n=8, degree=1, reg=None, direction='forward', bd=1, dr=1.0, seed=5)
-    good = ad.good_file((8, 1))
-    k = 128 + (len(good) - 128) // 2
-    data = good[:128] + b'\x00' * (k - 128) + good[k:]
-    env.reset()
-    ad.reset_memory()
-    open(os.path.join(env.path(1), ad.fname((8, 1))), 'wb').write(data)
-    out = ad.call(call)
-    ref = worker.ask('daun', dict(call, bd=None))
-    return out[0] == 'ok' and ref[0] == 'ok' and not H.same(out[1], ref[1])
-
-
-CHUNK_SNIPPET = '''import sys, os, shutil
-sys.path.insert(0, '/verif/tools')
-import numpy as np
-from props import cache_harness as H
-from props import C08
-# 1. the library's own saves: does every basis file appear by rename of a fully written temp file? (strace)
-root = '/var/tmp/pyabel-verif-replay-%d' % os.getpid()
-os.makedirs(root)
-info, err = C08.strace_guard(root)
-print('how the saved basis files came into being:', info or err)
-bad = C08.not_atomic(info or {})
-# 2. the content the schedule A:trunc,hdr,bulk  B:trunc,hdr  A:tail  leaves behind (header, zero gap, tail)
-env = H.Env(os.path.join(root, 'main')); w = H.LocalFresh(os.path.join(root, 'fresh'))
-changed = C08.zero_gap_probe(env, w, np.random.default_rng(0))
-env.close(); w.close(); shutil.rmtree(root, ignore_errors=True)
-print('a zero-gap file (possible when saving in place) is loaded and changes the result:', changed)
-fails = bool(bad) and changed
-print('property C08 (concurrent writers)', 'FAILS for %r' % bad if fails else 'holds')
-sys.exit(1 if fails else 0)
-'''
-
-
-BASEX_EXTEND_SNIPPET = '''import sys, os, shutil, io, contextlib, warnings
-warnings.simplefilter('ignore')
-import numpy as np
-import abel.basex as bx
-d = '/var/tmp/pyabel-verif-replay-%d' % os.getpid()
-shutil.rmtree(d, ignore_errors=True); os.makedirs(d)
-IM = np.random.default_rng(0).random((2, 8)) + 0.1
-bx.cache_cleanup(); fresh = bx.basex_transform(IM, basis_dir=None, verbose=False); bx.cache_cleanup()
-# a valid .npy that is not what its name promises ((5, 5) expected), smaller than the request
-np.save(d + '/basex_basis_5_1.0.npy', np.zeros((2, 3, 3)))
-with contextlib.redirect_stdout(io.StringIO()):
-    try:
-        r = bx.basex_transform(IM, basis_dir=d, verbose=False)
-    except Exception as e:
-        print('raises', type(e).__name__, '(allowed)'); shutil.rmtree(d); sys.exit(0)
-diff = float(abs(r - fresh).max())
-shutil.rmtree(d)
-print('max abs difference to the no-disk-cache result:', diff)
-sys.exit(1 if diff > 1e-9 else 0)
-'''
-
-
-# --------------------------------------------------------------------------
-# findings
-# --------------------------------------------------------------------------
-def classify(mod, ops, recs, out, ref):
-    """All defects of this property found while the check was built are fixed in
-    /repo; whatever fails now gets a key of its own."""
-    kinds = [o[3] for o in ops if o[0] == 'seed' and o[3] != 'good'] + [o[0] for o in ops if o[0] == 'overwrite']
-    if not kinds:
-        return None                       # no damaged file involved: C07's business
-    return 'C08:%s:unclassified:%s' % (mod, '/'.join(o[0] + (':' + o[3] if o[0] == 'seed' else '') for o in ops))
-
-
-WHAT = {}
-
-
-def gen_damage_history(ad, rng, L):
-    """A random history in which files appear damaged, and files that exist (put
-    there as good files, or saved / loaded by an earlier call) are later
-    overwritten in place."""
-    ops = []
-    known = []          # (directory, key) of files that may exist
-    for op in ad.gen_history(rng, L):
-        if op[0] == 'seed':
-            known.append((op[1], op[2]))
-            if rng.random() < 0.6:
-                op = (op[0], op[1], op[2], ad.DAMAGE_KINDS[rng.integers(len(ad.DAMAGE_KINDS))])
-        if op[0] == 'call' and op[1].get('bd') == H.BADDIR:
-            op = ('call', dict(op[1], bd=1))
-        if op[0] == 'setdir' and op[1] == H.BADDIR:
-            continue
-        ops.append(op)
-        if op[0] == 'call' and op[1].get('bd') in (1, 2):
-            known.append((op[1]['bd'], ad.call_key(op[1])))
-            if rng.random() < 0.3:
-                # the same request again: from memory (after an overwrite: of what?) or from disk
-                ops.append(('call', dict(op[1], seed=int(rng.integers(1 << 30)))))
-        if known and rng.random() < 0.2:
-            d, key = known[rng.integers(len(known))]
-            ops.append(('overwrite', d, key))
-            for c in [o[1] for o in ops if o[0] == 'call'][-1:]:
-                if rng.random() < 0.6:
-                    ops.append(('call', dict(c, seed=int(rng.integers(1 << 30)))))
-    return ops
-
-
-def directed(mod, rng):
-    """after a damaged file made a call raise: remove it, call again"""
-    S = []
-    call, key = request_of(mod, rng)
-    if mod == 'daun':
-        key = (call['n'], call['degree'])
-    other = {'basex': dict(call, sig=1, bd=None), 'daun': dict(call, degree=(call.get('degree', 0) + 1) % 3, bd=None),
-             'dasch': dict(call, meth=(call.get('meth', 0) + 1) % 3, n=9, bd=None),
-             'linbasex': dict(call, angles=[0, 102], bd=None),
-             'rbasex': dict(call, order=2, odd=True, bd=None)}[mod]
-    if mod == 'rbasex':
-        call = dict(call, order=4)
-        key = (4, 4, 0, 1)
-    for kind in ('empty', 'trunc', 'zip', 'garbage', 'shape'):
-        S.append([('call', other), ('seed', 1, key, kind), ('call', call), ('remove', 1, key), ('call', call)])
-        S.append([('seed', 1, key, kind), ('call', call), ('call', call)])
-    # a wrong-shape file whose NAME promises more than the request needs: cropped and used?
-    big = {'basex': (14, 0), 'daun': (14, call.get('degree', 0)), 'dasch': (call.get('meth', 0), 14),
-           'rbasex': (6, 4, 0, 1)}.get(mod)
-    if big is not None:
-        S.append([('seed', 1, big, 'shape'), ('call', call)])
-        S.append([('seed', 1, big, 'shapebig'), ('call', call), ('remove', 1, big), ('call', call)])
-    S += two_damaged(mod, rng, call)
-    S += overwritten_after_load(mod, rng, call, key, big)
-    return S
-
-
-def sized(mod, call, size):
-    """(the request `call` at another size, key of the file that request saves)"""
-    if mod == 'rbasex':
-        # image (9, 9): rmax 'MIN' = 4 about the centre, explicit 3 otherwise
-        c = dict(call, rmax={4: 0, 3: 1}[size])
-        return c, (size, c['order'], int(bool(c['odd'] or c['order'] % 2)), int(c['direction'] == 'inverse'))
-    c = dict(call, n=size)
-    return c, H.ADAPTERS[mod].call_key(None, c)
-
-
-def two_damaged(mod, rng, call):
-    """Two unusable candidate files at once, for the methods that choose among
-    several files of a directory: a warm-up request (same method, smaller), then
-    a directory holding a valid .npy of the wrong shape and a file that cannot be
-    parsed, both with names that promise enough for the request (both
-    assignments of the two names, so both glob orders), the request, removal of
-    both files, the request again (with and without disk cache)."""
-    if mod == 'linbasex':
-        return []           # exact file name only: never more than one candidate
-    S = []
-    sd = lambda: int(rng.integers(1 << 30))      # noqa
-    if mod == 'rbasex':
-        warm, _ = sized(mod, dict(call, bd=None), 3)
-        req = dict(call, rmax=0)
-        k1 = (5, req['order'], 0, 1)
-        k2 = (6, req['order'], 0, 1)
-    else:
-        warm, _ = sized(mod, dict(call, bd=None), 5)
-        req, _ = sized(mod, call, 8)
-        _, k1 = sized(mod, call, 9)
-        _, k2 = sized(mod, call, 12)
-    kinds = ['garbage', 'empty', 'trunc', 'zip']
-    for bad in kinds:
-        for ka, kb in ((k1, k2), (k2, k1)):
-            for shp in ('shapebig', 'shape'):
-                if shp == 'shape' and bad != 'garbage':
-                    continue
-                S.append([('call', dict(warm, seed=sd())), ('seed', 1, ka, shp), ('seed', 1, kb, bad),
-                          ('call', dict(req, seed=sd())), ('remove', 1, ka), ('remove', 1, kb),
-                          ('call', dict(req, seed=sd())), ('call', dict(req, bd=None, seed=sd()))])
-    # two unparsable files, two wrong-shape files
-    for wa, wb in (('garbage', 'trunc'), ('shapebig', 'shapebig')):
-        S.append([('call', dict(warm, seed=sd())), ('seed', 1, k1, wa), ('seed', 1, k2, wb),
-                  ('call', dict(req, seed=sd())), ('remove', 1, k1), ('call', dict(req, seed=sd())),
-                  ('remove', 1, k2), ('call', dict(req, seed=sd()))])
-    return S
-
-
-def overwritten_after_load(mod, rng, call, key, big):
-    """A good file is loaded successfully; afterwards it is overwritten in place
-    (same inode, same length) with garbage.  Every following call must return the
-    no-disk-cache result or raise: what was loaded must not alias the file."""
-    S = []
-    sd = lambda: int(rng.integers(1 << 30))      # noqa
-    again = lambda c: ('call', dict(c, seed=sd()))      # noqa
-    keys = [key] + ([big] if big is not None and mod != 'rbasex' else [])
-    if mod == 'rbasex':
-        keys.append((6, call['order'], 0, 1))
-    for k in keys:
-        # the file is put there, loaded, overwritten; same request from memory, then without disk
-        # cache, then after dropping the memory caches (meets the garbage: raises or regenerates)
-        S.append([('seed', 1, k, 'good'), again(call), ('overwrite', 1, k), again(call),
-                  again(dict(call, bd=None)), ('cleanup', 'all') if mod in ('basex', 'daun', 'rbasex') else ('cleanup',),
-                  again(call), ('remove', 1, k), again(call)])
-    # the library's own file: saved by the first call, loaded by the second
-    cl = ('cleanup', 'all') if mod in ('basex', 'daun', 'rbasex') else ('cleanup',)
-    S.append([again(call), cl, again(call), ('overwrite', 1, key), again(call), again(dict(call, bd=None)),
-              ('remove', 1, key), again(call)])
-    return S
-
-
-RACE_SCRIPT = r'''
 import sys, os, warnings
 warnings.simplefilter('ignore')
 import numpy as np
